@@ -56,6 +56,14 @@ class C12(Check):
             "two datagrams are received (one P and all Ps): the handler sees its client's request and TsigStatus() == nil "
             "exactly when that client's signature is right, the client gets the echo signed in continuation of its own "
             "request MAC, and no read returns a buffer whose datagram has not reached TsigProvider.Verify yet. "
+            "Histories on one long-lived object: requests with differing TSIG situations (every ordered pair of unsigned / "
+            "signed / forwarded / bad-mac / unknown-key / bad-time, and longer sequences) on ONE stream connection of a "
+            "TSIG-configured server - each handler is told the verdict about ITS request only, each reply is signed over "
+            "its own request's MAC; 2-10 replies read from ONE connection through Conn.ReadMsgHeader / Read / ReadMsg "
+            "(stream and datagram) with all earlier results still held - each still is its reply after the last read "
+            "(also in every readclient case); ONE Server value shut down, reconfigured (UDPSize up and down, Handler, "
+            "TsigSecret, MsgAcceptFunc) and started again, 2-4 lives, UDP and TCP, with and without a garbage collection "
+            "in between - every request within the UDPSize of its life reaches that life's handler intact and is answered by it. "
             "Non-trivial = at least "
             "one message delivered or an ok exchange; distinct by hash.")
     partial = [
